@@ -8,6 +8,8 @@ from .. import astq
 from ..events import outcome_name, run_function
 from ..interp import AV, BASE_TOP, EXT_TOP, UNK, BaseRule, Out, const, exc
 from ..model import AnalysisError
+from ..rows import GenRule, effect_rows
+from ..terms import K, T, destruct, norm, subterms
 from . import resend
 
 RT = "urllib3.util.retry"
@@ -125,108 +127,130 @@ def run(ctx):
 
     # ------------------------------------------------------------------ R4 back-off clamp
     R4 = ctx.rule("C04-R4", "every sleep lies in [0, backoff_max] or is a non-negative Retry-After: get_backoff_time returns 0 or max(0, min(backoff_max, e)); parse_retry_after clamps at 0; only these values reach time.sleep", "E6 min/max algebra")
+    def _tb(t):
+        """(lo>=0 proven, hi<=backoff_max proven) for a min/max term."""
+        op, args = destruct(t)
+        if op == "const":
+            v = args
+            return (isinstance(v, (int, float)) and not isinstance(v, bool) and v >= 0, isinstance(v, (int, float)) and not isinstance(v, bool) and v <= 0)
+        if op in ("float", "abs") and len(args) == 1:
+            lo, hi = _tb(args[0])
+            return (lo or op == "abs", hi and op == "float")
+        if op in ("max", "min") and len(args) >= 2:
+            bs = [_tb(x) for x in args]
+            if op == "max":
+                return (any(b_[0] for b_ in bs), all(b_[1] for b_ in bs))
+            return (all(b_[0] for b_ in bs), any(b_[1] for b_ in bs))
+        if t == "self.backoff_max":
+            return (False, True)
+        return (False, False)
+
+    def sleep_rows(fi):
+        rule4 = GenRule(ctx, fi.module, events=lambda t_, n_: "sleep" if t_ in ("time.sleep", "sleep") else None)
+        return effect_rows(ctx, fi, rule4, RETRY, budget=400000)
+
     gb = m.method(RETRY, "get_backoff_time")
-    rets = [r for r in astq.walk_fn(gb.node) if isinstance(r, ast.Return)]
-    ctx.sites(R4, len(rets), 2, "returns of get_backoff_time")
-    for r in rets:
-        lo, hi = _bounds(r.value)
-        ctx.ob(R4, gb.qual, f"`{astq.text(r)}` within [0, backoff_max]", lo and hi,
-               "" if lo and hi else f"lower bound proven={lo}, upper bound proven={hi}: the sleep can be negative or exceed backoff_max", node=r)
+    rws = [r for r in sleep_rows(gb) if r.returns]
+    ctx.sites(R4, len(rws), 2, "returning rows of get_backoff_time")
+    for r in rws:
+        lo, hi = _tb(r.ret)
+        ctx.ob(R4, gb.qual, f"`{r.ret[:90]}` within [0, backoff_max]", lo and hi,
+               "" if lo and hi else f"lower bound proven={lo}, upper bound proven={hi}: the sleep can be negative or exceed backoff_max", witness=r.witness(), node=gb.node)
     pr = m.method(RETRY, "parse_retry_after")
-    rets = [r for r in astq.walk_fn(pr.node) if isinstance(r, ast.Return)]
-    for r in rets:
-        srcs = astq.assigned_values(pr.node, r.value.id) if isinstance(r.value, ast.Name) else [r.value]
-        last = max(srcs, key=lambda x: getattr(x, "lineno", 0)) if srcs else None
-        lo = last is not None and _bounds(last)[0]
-        ctx.ob(R4, pr.qual, f"`{astq.text(r)}` is clamped at 0", bool(lo), "" if lo else "a Retry-After date in the past yields a negative sleep", node=r)
-    sleeps = []
+    rws = [r for r in sleep_rows(pr) if r.returns]
+    ctx.sites(R4, len(rws), 2, "returning rows of parse_retry_after")
+    for r in rws:
+        lo = _tb(r.ret)[0]
+        ctx.ob(R4, pr.qual, f"`{r.ret[:90]}` is clamped at 0", bool(lo), "" if lo else "a Retry-After date in the past yields a negative sleep", witness=r.witness(), node=pr.node)
+    GBT, GRA = T("self.get_backoff_time"), T("self.get_retry_after", "p:response")
+    nsl = 0
     for name, fi in sorted(cls.methods.items()):
-        for c in astq.calls(fi.node):
-            if astq.call_text(c) == "time.sleep":
-                sleeps.append((fi, c))
-    ctx.sites(R4, len(sleeps), 2, "time.sleep sites")
-    for fi, c in sleeps:
-        srcs = astq.sources_of(fi.node, c.args[0]) if c.args else []
-        ok = bool(srcs) and all(isinstance(s, ast.Call) and astq.call_text(s) in ("self.get_backoff_time", "self.get_retry_after") for s in srcs)
-        ctx.ob(R4, fi.qual, f"`{astq.text(c)}` sleeps a clamped value", ok, "; ".join(astq.text(s) for s in srcs), node=c)
+        if not any(astq.call_text(c).endswith("sleep") and astq.call_text(c) not in ("self.sleep", "retries.sleep") and not astq.call_text(c).startswith("self.") for c in astq.calls(fi.node)):
+            continue
+        for r in sleep_rows(fi):
+            for e_ in r.events("sleep"):
+                nsl += 1
+                ok = len(e_) >= 2 and e_[1] in (GBT, GRA)
+                ctx.ob(R4, fi.qual, f"sleeps `{e_[1] if len(e_) > 1 else ''}`: a clamped value", ok, "" if ok else "the value slept is not get_backoff_time() / get_retry_after(response)", witness=r.witness(), node=fi.node)
+    ctx.sites(R4, nsl, 2, "time.sleep events")
     gra = m.method(RETRY, "get_retry_after")
-    rets = [r for r in astq.walk_fn(gra.node) if isinstance(r, ast.Return) and r.value is not None and not (isinstance(r.value, ast.Constant) and r.value.value is None)]
-    ok = all(isinstance(r.value, ast.Call) and astq.call_text(r.value) == "self.parse_retry_after" for r in rets) and rets
-    ctx.ob(R4, gra.qual, "Retry-After value comes from parse_retry_after", bool(ok))
+    rws = [r for r in sleep_rows(gra) if r.returns]
+    ctx.sites(R4, len(rws), 2, "rows of get_retry_after")
+    for r in rws:
+        op, args = destruct(r.ret)
+        ok = r.ret == "None" or op == "self.parse_retry_after"
+        ctx.ob(R4, gra.qual, f"Retry-After value `{r.ret[:80]}` comes from parse_retry_after", bool(ok), witness=r.witness(), node=gra.node)
 
     # ------------------------------------------------------------------ R5 is_retry decision table
     R5 = ctx.rule("C04-R5", "is_retry == method allowed and (status forced or (total and respect_retry_after_header and has_retry_after and status in {413,429,503}))", "E5 decision table")
     ra = fold.need_class(RETRY, "RETRY_AFTER_STATUS_CODES")
     ctx.ob(R5, RETRY, f"RETRY_AFTER_STATUS_CODES == {{413, 429, 503}}", set(ra) == {413, 429, 503}, f"folds to {sorted(ra)}")
     ir = m.method(RETRY, "is_retry")
-
-    class IsRetryRule(BaseRule):
-        def call(self, it, st, node, recv, pos, kw):
-            t = ast.unparse(node.func)
-            if t == "self._is_method_retryable":
-                return [Out("normal", st, AV("unk", sym="allowed"))]
-            if t == "bool" and pos:
-                return [Out("normal", st, AV("unk", truth=pos[0].truth, none=False))]
-            return None
-
-        def compare(self, it, st, node, a, b):
-            return None
-
-        def atom_name(self, it, st, node):
-            t = ast.unparse(node)
-            return t
-
-    seeds = {("self", "status_forcelist"): AV("unk", sym="forcelist"), ("self", "total"): AV("unk", sym="total"),
-             ("self", "respect_retry_after_header"): AV("unk", sym="respect"), ("self", "RETRY_AFTER_STATUS_CODES"): AV("unk", sym="RA")}
-    outs, it = run_function(m, ir, IsRetryRule(), RETRY, seeds=seeds, record_decisions=True)
-    rows = []
-    for o in outs:
-        if o.kind != "return":
-            continue
-        v = o.st.view(o.val)
-        val = v.val if v.kind == "const" else v.truth
-        rows.append((dict(o.st.ts.get("dec", ())), val, o))
-    ctx.sites(R5, len(rows), 4, "rows of is_retry")
-
-    def atom(dec, frag):
-        for a, b in dec.items():
-            if frag(a):
-                return b
-        return None
-
-    for dec, val, o in rows:
-        env = {
-            "allowed": o.st.facts.get("allowed", (None, None))[0],
-            "forcelist": o.st.facts.get("forcelist", (None, None))[0],
-            "inforce": atom(dec, lambda a: "in self.status_forcelist" in a),
-            "total": o.st.facts.get("total", (None, None))[0],
-            "respect": o.st.facts.get("respect", (None, None))[0],
-            "has": o.st.facts.get("p:has_retry_after", (None, None))[0],
-            "inra": atom(dec, lambda a: "RETRY_AFTER_STATUS_CODES" in a),
-        }
-        names = list(env)
-        outs_spec = set()
-        for combo in itertools.product([True, False], repeat=len(names)):
-            e = dict(zip(names, combo))
-            if any(env[k] is not None and env[k] != e[k] for k in names):
-                continue
-            spec = e["allowed"] and ((e["forcelist"] and e["inforce"]) or (e["total"] and e["respect"] and e["has"] and e["inra"]))
-            outs_spec.add(bool(spec))
-        ok = outs_spec == {bool(val)} and val is not None
-        desc = ", ".join(f"{k}={v}" for k, v in env.items() if v is not None)
-        ctx.ob(R5, ir.qual, f"row [{desc}] -> {val}", ok, "" if ok else f"specification gives {sorted(outs_spec)} on this row", witness=o.st.witness(), node=ir.node)
     mr = m.method(RETRY, "_is_method_retryable")
-    txt = astq.text(mr.node)
-    ctx.ob(R5, mr.qual, "method allow-list is consulted case-insensitively (upper-cased) and only when configured",
-           "method.upper() not in self.allowed_methods" in txt and "self.allowed_methods and" in txt)
+    from ..rows import GenRule as _GR, effect_rows as _er
+
+    def _r5_rows(fi):
+        rule5 = _GR(ctx, fi.module, inline={mr.qual})
+        return _er(ctx, fi, rule5, RETRY, budget=400000)
+
+    def _r5_env(r):
+        env = {"allowlist": r.truth("self.allowed_methods"), "forcelist": r.truth("self.status_forcelist"), "total": r.truth("self.total"),
+               "respect": r.truth("self.respect_retry_after_header"), "has": r.truth("p:has_retry_after"), "inallow": None, "inforce": None, "inra": None}
+        bad = []
+        for k_, v_ in r.st.ts.items():
+            if not (isinstance(k_, tuple) and len(k_) == 4 and k_[0] == "cmp" and k_[2] == "in"):
+                continue
+            if k_[3] == "self.allowed_methods":
+                env["inallow"] = v_
+                if k_[1] != T("upper", "p:method"):
+                    bad.append(f"`{k_[1]}` (not the upper-cased method) is looked up in allowed_methods")
+            elif k_[3] == "self.status_forcelist":
+                env["inforce"] = v_
+                if k_[1] != "p:status_code":
+                    bad.append(f"`{k_[1]}` is looked up in status_forcelist")
+            elif k_[3] in ("self.RETRY_AFTER_STATUS_CODES", "g:Retry.RETRY_AFTER_STATUS_CODES") or k_[3] == repr(ra):
+                env["inra"] = v_
+                if k_[1] != "p:status_code":
+                    bad.append(f"`{k_[1]}` is looked up in RETRY_AFTER_STATUS_CODES")
+            else:
+                bad.append(f"membership in `{k_[3]}` decides")
+        return env, bad
+
+    def _r5_check(fi, rows_, spec, what):
+        for r in rows_:
+            if not r.returns:
+                ctx.ob(R5, fi.qual, f"row -> {r.out}", False, "the decision raises", witness=r.witness(), node=fi.node)
+                continue
+            v = r.o.st.view(r.o.val) if r.o.kind == "return" else const(None)
+            val = v.val if v.kind == "const" else v.truth
+            env, bad = _r5_env(r)
+            names = list(env)
+            outs_spec = set()
+            for combo in itertools.product([True, False], repeat=len(names)):
+                e_ = dict(zip(names, combo))
+                if any(env[k] is not None and env[k] != e_[k] for k in names):
+                    continue
+                outs_spec.add(bool(spec(e_)))
+            ok = outs_spec == {bool(val)} and val is not None and not bad
+            desc = ", ".join(f"{k}={v}" for k, v in env.items() if v is not None)
+            ctx.ob(R5, fi.qual, f"{what} row [{desc}] -> {val}", ok,
+                   "" if ok else ("; ".join(bad) if bad else f"specification gives {sorted(outs_spec)} on this row"), witness=r.witness(), node=fi.node)
+
+    def _allowed(e_):
+        return (not e_["allowlist"]) or e_["inallow"]
+
+    rows5 = _r5_rows(ir)
+    ctx.sites(R5, len(rows5), 4, "rows of is_retry")
+    _r5_check(ir, rows5, lambda e_: _allowed(e_) and ((e_["forcelist"] and e_["inforce"]) or (e_["total"] and e_["respect"] and e_["has"] and e_["inra"])), "is_retry")
+    rows5m = _r5_rows(mr)
+    ctx.sites(R5, len(rows5m), 2, "rows of _is_method_retryable")
+    _r5_check(mr, rows5m, _allowed, "method allow-list (consulted upper-cased, only when configured)")
 
     # ------------------------------------------------------------------ increment: R6, R9, R10 (effect rows)
     R6 = ctx.rule("C04-R6", "retries=False re-raises the original error at once: total is False and error => raise before any counter is touched", "E10 effect rows of increment")
     R9 = ctx.rule("C04-R9", "every branch of increment spends budget: the total handed to new() is the decremented one whenever it is not None; in the connect/read/other/redirect/status branch the matching counter is decremented whenever it is not None; the new object is the one tested for exhaustion and returned", "E10 effect rows (decrement = the term <field> - 1)")
     R10 = ctx.rule("C04-R10", "method gate: a read error with read=False, an unknown method or a method outside allowed_methods is re-raised, never retried", "E10 effect rows of increment")
     inc = m.method(RETRY, "increment")
-    from ..rows import GenRule, effect_rows
-    from ..terms import K, T, destruct, norm, subterms
 
     class IncRule(GenRule):
         def call_hook(self, it, st, node, recv, pos, kw):
@@ -422,18 +446,28 @@ def run(ctx):
     ctx.ob(R11, init.qual, "constructor default is DEFAULT_ALLOWED_METHODS", d is not None and astq.text(d) == "DEFAULT_ALLOWED_METHODS")
     R12 = ctx.rule("C04-R12", "the server's Retry-After is honoured only when asked: the header-driven sleep is attempted only under respect_retry_after_header and a response", "E5 on sleep")
     sl = m.method(RETRY, "sleep")
-    cs = [c for c in astq.calls(sl.node) if astq.call_text(c) == "self.sleep_for_retry"]
-    ctx.sites(R12, len(cs), 1, "sleep_for_retry call in sleep")
-    for c in cs:
-        g = astq.enclosing(c, ast.If)
-        ok = g is not None and astq.text(g.test) in ("self.respect_retry_after_header and response", "response and self.respect_retry_after_header")
-        ctx.ob(R12, sl.qual, "guarded by respect_retry_after_header and response", ok, astq.text(g.test) if g is not None else "unguarded", node=c)
+    SFR = T("self.sleep_for_retry", "p:response")
+    rws = sleep_rows(sl)
+    n12 = 0
+    for r in rws:
+        calls = [e_ for e_ in r.events("call") if e_[1] == "self.sleep_for_retry"]
+        if calls:
+            n12 += 1
+            ok = r.truth("self.respect_retry_after_header") is True and r.truth("p:response") is True and all(e_[2:3] == ("p:response",) for e_ in calls)
+            ctx.ob(R12, sl.qual, "header-driven sleep attempted only under respect_retry_after_header and a response", ok,
+                   "" if ok else f"respect_retry_after_header={r.truth('self.respect_retry_after_header')}, response={r.truth('p:response')} on this row", witness=r.witness(), node=sl.node)
+        if any(e_[0] == "sleep" for e_ in r.ev):
+            ctx.ob(R12, sl.qual, "sleep() itself does not sleep a value of its own", False, witness=r.witness(), node=sl.node)
+    ctx.sites(R12, n12, 1, "rows of sleep that consult the header")
     sfr = m.method(RETRY, "sleep_for_retry")
-    ok = any(isinstance(n, ast.If) and isinstance(n.test, ast.Name)
-             and any(isinstance(sv, ast.Call) and astq.call_text(sv) == "self.get_retry_after" for sv in astq.sources_of(sfr.node, n.test))
-             and any(astq.call_text(c) == "time.sleep" for c in astq.calls(ast.Module(body=n.body, type_ignores=[])))
-             for n in astq.walk_fn(sfr.node))
-    ctx.ob(R12, sfr.qual, "sleeps only for a positive Retry-After", ok)
+    rws = sleep_rows(sfr)
+    n12 = 0
+    for r in rws:
+        if r.events("sleep"):
+            n12 += 1
+            ok = r.truth(GRA) is True
+            ctx.ob(R12, sfr.qual, "sleeps only for a positive Retry-After", ok, "" if ok else "sleeps although get_retry_after() returned nothing/zero", witness=r.witness(), node=sfr.node)
+    ctx.sites(R12, n12, 1, "sleeping rows of sleep_for_retry")
 
 
 def rule_r8(ctx):
@@ -458,10 +492,37 @@ def rule_r8(ctx):
     conn_names = set(astq.assigned_from(uo.node, lambda v: isinstance(v, ast.Call) and astq.call_text(v) == "self._get_conn"))
     if not conn_names:
         raise AnalysisError("urlopen: local holding the leased connection not found")
+    def conn_reads(root, names, depth=0, seen=()):
+        """Attribute loads on the leased connection in `root`, following it into repo helpers it is passed to."""
+        out = []
+        for node in ast.walk(root):
+            if isinstance(node, ast.Attribute) and isinstance(node.value, ast.Name) and node.value.id in names and isinstance(node.ctx, ast.Load):
+                out.append(node)
+            if isinstance(node, ast.Call) and depth < 3:
+                passed = [(i, a_) for i, a_ in enumerate(node.args) if isinstance(a_, ast.Name) and a_.id in names]
+                passed_kw = [(k_.arg, k_.value) for k_ in node.keywords if k_.arg and isinstance(k_.value, ast.Name) and k_.value.id in names]
+                if not passed and not passed_kw:
+                    continue
+                t_ = astq.call_text(node)
+                callee = None
+                if t_.startswith(("self.", "cls.")) and t_.count(".") == 1:
+                    callee = m.find_method(f"{CP}.HTTPConnectionPool", t_.split(".", 1)[1])
+                elif "." not in t_:
+                    callee = next((f for f in m.repo_funcs() if f.module == CP and f.cls is None and f.name == t_), None)
+                if callee is None or callee.qual in seen:
+                    continue
+                ps = [a_.arg for a_ in callee.node.args.posonlyargs + callee.node.args.args]
+                if callee.cls is not None and ps and ps[0] in ("self", "cls") and not any("staticmethod" in d for d in callee.decorators):
+                    ps = ps[1:]
+                inner = {ps[i] for i, _ in passed if i < len(ps)} | {k_ for k_, _ in passed_kw}
+                if inner:
+                    out.extend(conn_reads(callee.node, inner, depth + 1, seen + (callee.qual,)))
+        return out
+
     nn = 0
     for h in handlers:
-        for node in ast.walk(h):
-            if isinstance(node, ast.Attribute) and isinstance(node.value, ast.Name) and node.value.id in conn_names and isinstance(node.ctx, ast.Load):
+        for node in conn_reads(h, conn_names):
+            if True:
                 prop = m.find_method(f"{CN}.HTTPConnection", node.attr)
                 backing = set()
                 if prop is not None and any("property" in d for d in prop.decorators):
